@@ -1,0 +1,129 @@
+//go:build verif
+
+// Add-only exports for the verification harness (/verif, property C17): the
+// download queue's reserve / deliver / cancel / expire cycle driven directly.
+// Not compiled without the `verif` build tag.
+package downloader
+
+import (
+	"math/big"
+	"strings"
+	"time"
+
+	"gitlab.com/aquachain/aquachain/common"
+	"gitlab.com/aquachain/aquachain/common/log"
+	"gitlab.com/aquachain/aquachain/core/types"
+	"gitlab.com/aquachain/aquachain/params"
+)
+
+func VerifBlockCacheItems() int { return blockCacheItems }
+
+// VerifQueue is a real downloader queue (newQueue) plus the peer connections
+// reservations are made for.
+type VerifQueue struct {
+	q     *queue
+	peers map[string]*peerConnection
+	reqs  map[string]*fetchRequest // last request handed out per peer and kind ("b:"/"r:" + id)
+}
+
+func VerifNewQueue(mode SyncMode, offset uint64, rule func(*big.Int) params.HeaderVersion) *VerifQueue {
+	q := newQueue(rule)
+	q.Prepare(offset, mode)
+	return &VerifQueue{q: q, peers: map[string]*peerConnection{}, reqs: map[string]*fetchRequest{}}
+}
+
+func (v *VerifQueue) peer(id string) *peerConnection {
+	p := v.peers[id]
+	if p == nil {
+		p = newPeerConnection(id, 65, nil, log.New("peer", id))
+		v.peers[id] = p
+	}
+	return p
+}
+
+// Schedule is queue.Schedule; returns how many headers were inserted.
+func (v *VerifQueue) Schedule(headers []*types.Header, from uint64) int {
+	return len(v.q.Schedule(headers, from))
+}
+
+func verifReqHashes(r *fetchRequest) []common.Hash {
+	if r == nil {
+		return nil
+	}
+	out := make([]common.Hash, len(r.Headers))
+	for i, h := range r.Headers {
+		out[i] = h.Hash()
+	}
+	return out
+}
+
+// ReserveBodies / ReserveReceipts: the hashes the peer is asked for (nil: nothing reserved).
+func (v *VerifQueue) ReserveBodies(id string, count int) ([]common.Hash, error) {
+	r, _, err := v.q.ReserveBodies(v.peer(id), count)
+	if r != nil {
+		v.reqs["b:"+id] = r
+	}
+	return verifReqHashes(r), err
+}
+func (v *VerifQueue) ReserveReceipts(id string, count int) ([]common.Hash, error) {
+	r, _, err := v.q.ReserveReceipts(v.peer(id), count)
+	if r != nil {
+		v.reqs["r:"+id] = r
+	}
+	return verifReqHashes(r), err
+}
+
+func verifErrClass(err error) string {
+	switch {
+	case err == nil:
+		return "ok"
+	case err == errNoFetchesPending:
+		return "nofetch"
+	case err == errStaleDelivery:
+		return "stale"
+	case err == errInvalidChain:
+		return "invalidchain"
+	case strings.HasPrefix(err.Error(), "partial failure"):
+		return "partial"
+	default:
+		return "err"
+	}
+}
+
+// DeliverBodies / DeliverReceipts: accepted count and error class
+// (ok | nofetch | stale | invalidchain | partial | err).
+func (v *VerifQueue) DeliverBodies(id string, txs [][]*types.Transaction, uncles [][]*types.Header) (int, string) {
+	n, err := v.q.DeliverBodies(id, txs, uncles)
+	return n, verifErrClass(err)
+}
+func (v *VerifQueue) DeliverReceipts(id string, receipts [][]*types.Receipt) (int, string) {
+	n, err := v.q.DeliverReceipts(id, receipts)
+	return n, verifErrClass(err)
+}
+
+// CancelBodies / CancelReceipts cancel the last request handed to the peer.
+func (v *VerifQueue) CancelBodies(id string) {
+	if r := v.reqs["b:"+id]; r != nil {
+		v.q.CancelBodies(r)
+	}
+}
+func (v *VerifQueue) CancelReceipts(id string) {
+	if r := v.reqs["r:"+id]; r != nil {
+		v.q.CancelReceipts(r)
+	}
+}
+
+// ExpireBodies / ExpireReceipts with the given timeout; returns the number of peers expired.
+func (v *VerifQueue) ExpireBodies(timeout time.Duration) int   { return len(v.q.ExpireBodies(timeout)) }
+func (v *VerifQueue) ExpireReceipts(timeout time.Duration) int { return len(v.q.ExpireReceipts(timeout)) }
+
+func (v *VerifQueue) PendingBlocks() int   { return v.q.PendingBlocks() }
+func (v *VerifQueue) PendingReceipts() int { return v.q.PendingReceipts() }
+func (v *VerifQueue) InFlightBlocks() bool { return v.q.InFlightBlocks() }
+
+// Completed: how many results at the front of the cache are complete (what WaitResults would return).
+func (v *VerifQueue) Completed() int {
+	v.q.lock.Lock()
+	defer v.q.lock.Unlock()
+	return v.q.countProcessableItems()
+}
